@@ -445,8 +445,8 @@ def prebuild(tier):
 
 
 SUBCHECKS = [
-    Sub("primitives", prim_cases(), check_prim, 30000, 1500000, ("all",), ("all",), setup=setup_backends),
-    Sub("generic", generic_cases(), check_generic, 40000, 1000000, ("p64", "p32", "asm", "glue-a64", "glue-v6m"), ("p64", "p32", "asm", "glue-a64", "glue-v6m")),
+    Sub("primitives", prim_cases(), check_prim, 30000, 700000, ("all",), ("all",), setup=setup_backends),
+    Sub("generic", generic_cases(), check_generic, 40000, 300000, ("p64", "p32", "asm", "glue-a64", "glue-v6m"), ("p64", "p32", "asm", "glue-a64", "glue-v6m")),
 ]
 
 
@@ -613,7 +613,7 @@ def check_arm(ctx, env, c):
 
 from ..runner import Violation  # noqa: E402
 
-SUBCHECKS.append(Sub("arm", prim_cases(), check_arm, 16000, 400000, ("arm",), ("arm",), setup=arm_backends))
+SUBCHECKS.append(Sub("arm", prim_cases(), check_arm, 16000, 250000, ("arm",), ("arm",), setup=arm_backends))
 
 
 # ---- API transcripts: keys, ciphertexts, signatures and hashes are identical whichever back end is used -------
@@ -648,4 +648,4 @@ def check_transcript(ctx, env, c):
             expect(a == b, "transcript/%s-vs-%s" % (ref_name, name), lambda: "item %d of the API transcript differs between back ends (%d vs %d bytes)" % (i, len(a), len(b)))
 
 
-SUBCHECKS.append(Sub("transcripts", transcript_cases(), check_transcript, 240, 6000, ("all4",), ("all4",), setup=transcript_env))
+SUBCHECKS.append(Sub("transcripts", transcript_cases(), check_transcript, 240, 3000, ("all4",), ("all4",), setup=transcript_env))
